@@ -99,8 +99,16 @@ Lemma nchars_app : forall a x, complete a = true -> nchars (a +++ x) = nchars a 
 Proof. intros a x H. unfold nchars. rewrite (chars_app a x H), app_length. lia. Qed.
 
 (* ASCII text: every code point is one byte *)
+Lemma rune_size_spec : forall c, rune_size c = rune_size_N c.
+Proof. intros [[|] [|] [|] [|] [|] [|] [|] [|]]; reflexivity. Qed.
+
+Lemma is_nl_spec : forall c, is_nl c = is_nl_N c.
+Proof. intros [[|] [|] [|] [|] [|] [|] [|] [|]]; reflexivity. Qed.
+
 Lemma rune_size_ascii : forall c, (N_of_ascii c <? 128)%N = true -> rune_size c = 1%nat.
-Proof. intros c H. unfold rune_size. replace (N_of_ascii c <? 194)%N with true by lia. reflexivity. Qed.
+Proof.
+  intros c H. rewrite rune_size_spec. unfold rune_size_N. replace (N_of_ascii c <? 194)%N with true by lia. reflexivity.
+Qed.
 
 Lemma ascii_chars_len1 : forall s, is_ascii_str s = true ->
   Forall (fun cp => String.length cp = 1%nat) (chars_of s).
@@ -131,31 +139,34 @@ Proof.
   intros s H. unfold nchars. rewrite <- (len1_concat _ (ascii_chars_len1 s H)). now rewrite chars_concat.
 Qed.
 
-Lemma ascii_w1 : forall s, is_ascii_str s = true -> forall runes,
-  (runes = true \/ forallb w1 (chars_of s) = true) ->
-  sum_width runes (chars_of s) = nchars s.
+(* ---------------- the domain of the width-sensitive theorems ---------------- *)
+Lemma w1_prefix_split : forall cs cls, w1_prefix cls cs = true -> exists rest, cls = one_each cs ++ rest.
 Proof.
-  intros s _ runes H. unfold nchars.
-  assert (G : forall l, (runes = true \/ forallb w1 l = true) -> sum_width runes l = Z.of_nat (length l)).
-  { induction l as [|x l IH]; intros Hl; [reflexivity|].
-    cbn [sum_width length]. rewrite IH.
-    - destruct Hl as [-> | Hl]; [cbn [cp_width]; lia|].
-      cbn [forallb] in Hl. apply andb_prop in Hl. destruct Hl as [Hx _]. unfold w1 in Hx.
-      destruct runes; [cbn [cp_width]; lia | lia].
-    - destruct Hl as [-> | Hl]; [now left | right]. cbn [forallb] in Hl. now apply andb_prop in Hl. }
-  now apply G.
+  induction cs as [|c cs IH]; intros cls H.
+  - now exists cls.
+  - cbn [w1_prefix] in H. destruct cls as [|[cl w] cr]; [discriminate H|].
+    apply andb_prop in H. destruct H as [H Hr]. apply andb_prop in H. destruct H as [Hc Hw].
+    apply String.eqb_eq in Hc. apply Z.eqb_eq in Hw. subst cl w.
+    destruct (IH cr Hr) as [rest ->]. now exists rest.
 Qed.
 
-Lemma sum_width_w1 : forall runes l, (runes = true \/ forallb w1 l = true) ->
-  sum_width runes l = Z.of_nat (length l).
+Lemma w1_prefix_one_each : forall cs1 rest, w1_prefix (one_each cs1 ++ rest) cs1 = true.
 Proof.
-  induction l as [|x l IH]; intros Hl; [reflexivity|].
-  cbn [sum_width length]. rewrite IH.
-  - destruct Hl as [-> | Hl]; [cbn [cp_width]; lia|].
-    cbn [forallb] in Hl. apply andb_prop in Hl. destruct Hl as [Hx _]. unfold w1 in Hx.
-    destruct runes; [cbn [cp_width]; lia | lia].
-  - destruct Hl as [-> | Hl]; [now left | right]. cbn [forallb] in Hl. now apply andb_prop in Hl.
+  induction cs1 as [|c cs1 IH]; intros rest; [reflexivity|].
+  cbn [one_each map app w1_prefix]. fold (one_each cs1). now rewrite String.eqb_refl, Z.eqb_refl, (IH rest).
 Qed.
+
+Lemma one_each_app : forall a b, one_each (a ++ b) = one_each a ++ one_each b.
+Proof. intros. unfold one_each. apply map_app. Qed.
+
+Lemma w1_prefix_app_l : forall cs1 cs2 cls, w1_prefix cls (cs1 ++ cs2) = true -> w1_prefix cls cs1 = true.
+Proof.
+  intros cs1 cs2 cls H. apply w1_prefix_split in H. destruct H as [rest ->].
+  rewrite one_each_app, <- app_assoc. apply w1_prefix_one_each.
+Qed.
+
+Lemma sum_w_one_each : forall cs, sum_w (one_each cs) = Z.of_nat (length cs).
+Proof. induction cs as [|c cs IH]; [reflexivity|]. cbn [one_each map sum_w length]. fold (one_each cs). lia. Qed.
 
 (* ---------------- lines ---------------- *)
 (* the text is its lines separated by newlines *)
@@ -167,7 +178,8 @@ Fixpoint join_nl (ls : list string) : string :=
 
 Lemma is_nl_true : forall c, is_nl c = true -> c = ascii_of_N 10.
 Proof.
-  intros c H. unfold is_nl in H. apply N.eqb_eq in H. rewrite <- (ascii_N_embedding c). now rewrite H.
+  intros c H. rewrite is_nl_spec in H. unfold is_nl_N in H. apply N.eqb_eq in H.
+  rewrite <- (ascii_N_embedding c). now rewrite H.
 Qed.
 
 Lemma lines_join : forall s, join_nl (lines_of s) = s.
